@@ -548,6 +548,15 @@ theorem c01_reject_closes (cfg : ConnCfg) (bs : Bytes) : ∀ (s : ConnSt) (pre p
       · simp at h
       · simp at h
 
+/-- **Rejections are 4xx/5xx.**  Every rejection the connection emits, on ANY byte stream, carries one of
+    the statuses 400, 411, 413, 431, 501 (`RejSt`) -- from the first request of a connection and from every
+    state in which an embedded chunked decoder is not already in its error state (`ConnSt.Live`, an
+    invariant of the automaton). -/
+theorem c01_reject_status (cfg : ConnCfg) (bs : Bytes) (s : ConnSt) (hs : s.Live) (st : Nat)
+    (h : Event.reject st ∈ (h1Feed cfg s bs).2) :
+    st = 400 ∨ st = 411 ∨ st = 413 ∨ st = 431 ∨ st = 501 :=
+  (h1Feed_rej cfg bs s hs).1 st h
+
 /-- `close` is final: no event of any kind follows it -/
 theorem c01_close_final (cfg : ConnCfg) (bs : Bytes) : ∀ (s : ConnSt) (pre post : List Event),
     (h1Feed cfg s bs).2 = pre ++ Event.close :: post →
@@ -761,6 +770,7 @@ example : (h1Feed exCfg {} (ofString "GET / HTTP/1.1\r\n\r\nGET /a HTTP/1.1\r\nH
 example : MinimalHead (ofString "GET / HTTP/1.1\r\n\r\n") ∧
     parseHead exCfg.opts exCfg.maxField exCfg.port (ofString "GET / HTTP/1.1\r\n\r\n") = .err 400 :=
   ⟨by decide +kernel, rejectedWith_spec _ _ (by decide +kernel)⟩
+example : ({} : ConnSt).Live := by simp [ConnSt.Live]
 -- a blank line cut between CR and LF is skipped like an uncut one (`c01_segmentation_conn`)
 example : (feedSegs exCfg {} [exGet ++ [cr], [lf] ++ exGet]).2.length = 2 := by decide +kernel
 end Examples
